@@ -342,6 +342,23 @@ func (k *Kind[C]) Eval(c C, nontrivial bool, classes ...string) []Violation {
 	return vs
 }
 
+// EvalLazy is Eval for judges whose classification is only known after judging
+// (the judge leaves it in package state; classify reads it). Avoids judging twice.
+func (k *Kind[C]) EvalLazy(c C, classify func() (bool, []string)) []Violation {
+	vs := safeJudge(k.judge, c)
+	nt, cl := classify()
+	k.record(c, nt, cl, vs)
+	return vs
+}
+
+// CheckLazy is EvalLazy inside a rapid property.
+func (k *Kind[C]) CheckLazy(rt *rapid.T, c C, classify func() (bool, []string)) {
+	vs := k.EvalLazy(c, classify)
+	if len(vs) > 0 {
+		rt.Fatalf("%s/%s: %s: %s", k.r.ID, k.st.name, vs[0].Clause, firstLine(vs[0].Detail))
+	}
+}
+
 // Check is Eval for use inside a rapid property: it fails the rapid case on violation.
 func (k *Kind[C]) Check(rt *rapid.T, c C, nontrivial bool, classes ...string) {
 	vs := k.Eval(c, nontrivial, classes...)
